@@ -4,6 +4,7 @@ CONSTANTS
   Reqs = {"gai0", "gai4", "gai6", "ghbn4", "ghbn6", "gaih0", "ghbnh4"}
   Shapes = {"one", "three", "five", "cname2"}
   QCacheSet = {0}
+  V6Src = 0
   SortLists = {"192.0.0.10/255.255.255.255 192.0.0.12/255.255.255.255 192.0.0.8/255.255.255.254", "192.0.0.0/255.255.255.0 10.1.2.4/255.255.255.255", "2001::9/128 192.0.0.9"}
   Repeat = 0
   MaxRep = 2
